@@ -180,7 +180,7 @@ pub fn synth_words() -> &'static [&'static str] {
             st = st.wrapping_mul(6364136223846793005).wrapping_add(1442695040888963407);
             ((st >> 33) % n.max(1)) as u64
         };
-        let mut ch_of = |cls: usize, next: &mut dyn FnMut(u64) -> u64| -> char {
+        let ch_of = |cls: usize, next: &mut dyn FnMut(u64) -> u64| -> char {
             let ranges = SYNTH_CLASSES[cls];
             let (lo, hi) = ranges[next(ranges.len() as u64) as usize];
             loop {
